@@ -75,8 +75,59 @@ def try_export(F, db, wkey, tmpdir=None):
 PROFILES = ["plain", "rich", "dup", "unprop", "dup+unprop", "bigmux", "all"]
 
 
+N_CORPUS = 4
+
+
+def corpus_case(k, C):
+    """hand-made minimal matrices = the witnesses of props/C14.v (wit_unpropagated, wit_dup_frames, wit_dup_signals) and
+    the 13-group multiplexed frame of finding F-C14d; run first in every tier (idx -1 .. -N_CORPUS)"""
+    db = C.CanMatrix()
+    for n in ("EA", "EB", "EC", "ED"):
+        db.add_ecu(C.Ecu(n))
+
+    def frame(name, fid, tx, sigs):
+        fr = C.Frame(name, arbitration_id=C.ArbitrationId(fid, False), size=8)
+        for t in tx:
+            fr.add_transmitter(t)
+        for i, (sn, rec) in enumerate(sigs):
+            s = C.Signal(sn, start_bit=8 * i, size=8, is_little_endian=True, is_signed=False, receivers=list(rec))
+            s.min, s.max = decimal.Decimal(0), decimal.Decimal(255)
+            fr.add_signal(s)
+        return fr
+    if k == 1:      # receiver lists not propagated
+        db.add_frame(frame("F", 0x10, ["EA"], [("S5", ["EB", "EC"])]))
+        what = "wit_unpropagated"
+    elif k == 2:    # two frames called Dup
+        for fid, tx, sn, rc in ((0x10, "EA", "S5", "EB"), (0x11, "EC", "S6", "ED")):
+            fr = frame("Dup", fid, [tx], [(sn, [rc])])
+            fr.update_receiver()
+            db.add_frame(fr)
+        what = "wit_dup_frames"
+    elif k == 3:    # the same signal name in two frames
+        for name, fid, rc in (("FA", 0x10, "EB"), ("FB", 0x11, "EC")):
+            fr = frame(name, fid, ["EA"], [("Counter", [rc])])
+            fr.update_receiver()
+            db.add_frame(fr)
+        what = "wit_dup_signals"
+    else:           # 13 multiplexer groups
+        fr = C.Frame("FMux13", arbitration_id=C.ArbitrationId(0x20, False), size=8)
+        fr.add_signal(C.Signal("Sel", start_bit=0, size=8, is_little_endian=True, is_signed=False, multiplex="Multiplexor"))
+        fr.add_signal(C.Signal("Common", start_bit=8, size=8, is_little_endian=True, is_signed=False))
+        for v in range(13):
+            fr.add_signal(C.Signal("G%d" % v, start_bit=16, size=8, is_little_endian=True, is_signed=False, multiplex=v * 5))
+        for s in fr.signals:
+            s.min, s.max = decimal.Decimal(0), decimal.Decimal(255)
+        fr.add_transmitter("EA")
+        fr.multiplex_signals()
+        db.add_frame(fr)
+        what = "sym_13_groups"
+    return db, dict(profile="corpus", idx=-k, corpus=what, features={})
+
+
 def build_case(base_seed, idx, C):
-    """-> (matrix, feature dict).  Profiles cycle with idx so every tier sees all of them."""
+    """-> (matrix, feature dict).  idx < 0: the fixed corpus; else profiles cycle with idx so every tier sees all of them."""
+    if idx < 0:
+        return corpus_case(-idx, C)
     rng = random.Random(base_seed * 7919 + idx)
     prof = PROFILES[idx % len(PROFILES)]
     ft = dict(n_frames=(2, 5), n_ecus=(3, 6), cycle_times=True, receivers=True, multi_senders=True,
